@@ -83,7 +83,7 @@ def traced_cases(ctx, n_docs, p_try, rng=None, n_edits=3):
       try:
         ST.limited(lambda: G.apply(e, b))
       except ST.Timeout:
-        if replay_tie(info, 90):      # confirmed in a fresh engine with a long limit
+        if replay_tie(info, 40):      # confirmed in a fresh engine with a long limit
           ctx.violation('nontermination', 'recalculation after a bundle did not terminate within the time limit',
                         copy.deepcopy(info))
         else:
@@ -179,8 +179,8 @@ def run_script(script, pseed, seconds=10):
       out = ST.limited(lambda: G.apply(e, b), seconds)
       res.append(('ok', G.canon(G.snapshot(e)), sorted(G.canon(x) for x in G.reprs(out.stored))))
     except ST.Timeout:
-      if seconds < 60:
-        return run_script(script, pseed, 90)
+      if seconds < 30:
+        return run_script(script, pseed, 40)
       res.append(('timeout',))
       break
     except Exception as x:    # the engine rolled the bundle back
@@ -272,7 +272,7 @@ def gen_prog_case(rng, p_try):
 
 
 def too_many_hangs(ctx):
-  return sum(1 for v in ctx.violations if v['kind'] == 'nontermination') >= 3
+  return sum(1 for v in ctx.violations if v['kind'] == 'nontermination') >= 2
 
 
 def search(ctx):
